@@ -147,6 +147,23 @@ CHECKS = {
             'Interleavings are explored at the granularity of the instrumented locks; between two yield points a task '
             'runs alone. Nothing is claimed for preemption inside a critical section.',
             'DESIGN.md section 2 C07'),
+    'C19': ('hypothesis generated configurations x exchange histories on the loop-back transport with TLS handshake '
+            'emulation, observing every client construction, connect, URL and server context; plus exhaustive enumeration '
+            'of mk_ssl_contexts parameter combinations with real in-memory TLS handshakes against signed / untrusted / '
+            'certificate-less peers',
+            'world part: provider TLS off/on x consumer none/optional/enforced x shared/own HTTP servers x alternative '
+            'host names x sync/async manager, then a generated history (notifications, operation invocation, Renew, '
+            'GetStatus, Get, Unsubscribe, shutdown with SubscriptionEnd). For every TLS-configured party (provider with a '
+            'context container; consumer with force_ssl_connect): every SOAP client it constructs gets exactly its client '
+            'context, it never opens or uses a plaintext connection, every URL with its own port in any message on the '
+            'wire or in the published discovery data is https, an HTTP server it creates gets its server context; an '
+            'incompatible peer must be refused (no fall-back). contexts part: all 48 parameter combinations; with a CA '
+            'file both contexts have CERT_REQUIRED, have the CA loaded, complete a handshake with a CA-signed peer and '
+            'refuse untrusted and certificate-less peers, in both directions.',
+            'The TLS handshake outcome of the world part is emulated at connect time (TLS client to plaintext port: '
+            'ssl.SSLError, plaintext client to TLS port: connection reset). WS-Discovery itself is not part of the world '
+            '(the consumer is given the provider address).',
+            'DESIGN.md section 2 C19'),
     'C10': ('hypothesis generated histories of set_location and SetContextState invocations executed end to end '
             '(consumer client, loop-back transport, SetService, SCO worker loop run inline, tutorial context provider) '
             'with an invariant oracle over the provider table and the context reports',
